@@ -24,12 +24,14 @@ Opts(kind) ==
 \* hyper-parameter values passed to create: explicit ones, zeros (to be replaced by the defaults), or explicit ones with a
 \* TINY but non-zero learning rate / epsilon (2^-30, far below the single-precision machine epsilon): a tiny value is a value,
 \* only an exact zero means "use the default"
-Styles == {"explicit", "zeros", "tinylr", "tinyeps"}
+\* ("zerodecay": the decay option is ON with the value 0 -- for AdamW the only way to ask for no decoupled decay; decay has
+\* no default, so a zero decay is a zero decay)
+Styles == {"explicit", "zeros", "tinylr", "tinyeps", "zerodecay"}
 HP(kind, style) ==
   LET v(name, n, d) == IF style = "zeros" /\ name \in DOMAIN Defaults(kind) THEN <<0, 1>>
                        ELSE IF (style = "tinylr" /\ name = "lr") \/ (style = "tinyeps" /\ name = "eps") THEN <<1, 1073741824>>
                        ELSE <<n, d>> IN
-  [lr |-> v("lr", 1, 16), decay |-> <<1, 8>>, momentum |-> v("momentum", 3, 4), dampening |-> <<1, 4>>,
+  [lr |-> v("lr", 1, 16), decay |-> IF style = "zerodecay" THEN <<0, 1>> ELSE <<1, 8>>, momentum |-> v("momentum", 3, 4), dampening |-> <<1, 4>>,
    beta1 |-> v("beta1", 7, 8), beta2 |-> v("beta2", 15, 16), eps |-> v("eps", 1, 1024), alpha |-> v("alpha", 1, 2)]
 EffectiveHP(kind, hp) == [name \in DOMAIN hp |-> Effective(kind, name, hp[name])]
 
